@@ -108,6 +108,7 @@ def configs(tier):
     add("h_rotator", "EOFRotator|power1|n5p3k3", cls="EOF", power=1, n=5, p=3, k=3)
     add("h_cross_rotator", "MCARotator|power1", options={"full_rank": True})
     add("h_cross_rotator", "CPCCARotator|alpha=0.5|power1", options={"full_rank": True}, cls="CPCCA", alpha=0.5)
+    add("h_cross_rotator", "MCARotator|power2", options={"full_rank": True}, power=2)  # the oblique branch (R^-H) of the cross-set rotators
     if tier == "thorough":
         add("h_cross_rotator", "CPCCARotator|alpha=0.5|power2", options={"full_rank": True}, cls="CPCCA", alpha=0.5, power=2)
         add("h_varimax", "kernel|_varimax|p4m3|iter1", options=ker, p=4, m=3)
